@@ -24,13 +24,23 @@ pub struct JoinHandle<T: Sized> {
 // Kernel will set this to 0 on child exit https://man7.org/linux/man-pages/man2/set_tid_address.2.html
 const UNFINISHED: u32 = 1;
 
+/// Blocks until the kernel has cleared the exit futex.
+/// A return from the futex wait alone proves nothing, a `FUTEX_WAIT` can return `0` without
+/// the thread having exited (stale wake-up on a recycled address, see `futex(2)`), so the value is re-checked.
+#[inline]
+fn wait_until_finished(futex: &AtomicU32) {
+    while futex.load(Ordering::Acquire) == UNFINISHED {
+        futex_wait_fast(futex, UNFINISHED);
+    }
+}
+
 impl<T: Sized> JoinHandle<T> {
     /// If the thread has panicked, this will return `None`
     #[must_use]
     pub fn join(self) -> Option<T> {
         // The OS will change to futex value to 0 and then wake it when the thread finishes.
         unsafe {
-            futex_wait_fast(self.tsm.get_futex(), UNFINISHED);
+            wait_until_finished(self.tsm.get_futex());
             // The thread has completed, we have exclusive access to the memory.
             // Pack it into a box, then consume the box to get the value off the heap.
             let val = self.tsm.get_value::<T>().into_inner();
@@ -56,7 +66,7 @@ impl<T: Sized> Drop for JoinHandle<T> {
             {
                 // The thread got its work done first, we need to wait for it to exit, signalled
                 // by the OS through the futex, then we know we have exclusive access to the memory.
-                futex_wait_fast(self.tsm.get_futex(), UNFINISHED);
+                wait_until_finished(self.tsm.get_futex());
                 self.tsm.dealloc();
             }
         }
